@@ -61,8 +61,13 @@ class C20(Prop):
                     shp[-1] = nl
                 arr = np.array([val() for _ in range(int(np.prod(shp)))]).reshape(shp).tolist()
                 lam = [wl() for _ in range(nl)] if (axis is not None or rng.random() < 0.8) else wl()
-            cases.append({"flux": flux, "prefix": prefix, "arr": arr, "lam": lam, "axis": axis,
-                          "units": units, "ints": ints, "kind": "%s/%s/%s" % (shape_kind, units, "arb" if arb else ("int" if ints else "dyadic"))})
+            # whole-number wavelengths handed over with an integer dtype (np.arange(300, 701, 5)); a wavelength buffer that held another grid in an earlier call
+            ilam = (not arb) and rng.random() < 0.25
+            if ilam:
+                lam = [float(int(v)) for v in lam] if isinstance(lam, list) else float(int(lam))
+            reuse = isinstance(lam, list) and rng.random() < 0.3
+            cases.append({"flux": flux, "prefix": prefix, "arr": arr, "lam": lam, "axis": axis, "ilam": ilam, "reuse": reuse,
+                          "units": units, "ints": ints, "kind": "%s/%s/%s%s%s" % (shape_kind, units, "arb" if arb else ("int" if ints else "dyadic"), "/ilam" if ilam else "", "/reuse" if reuse else "")})
         return cases
 
     def run_impl(self, case):
@@ -72,7 +77,18 @@ class C20(Prop):
         if case.get("ints"):
             arr = arr.astype(np.int64)
         lam = np.asarray(case["lam"], dtype=float) if isinstance(case["lam"], list) else float(case["lam"])
+        if case.get("ilam"):
+            lam = lam.astype(np.int64) if isinstance(lam, np.ndarray) else int(lam)
         fn = dreye.flux2irr if case["flux"] else dreye.irr2flux
+        if case.get("reuse"):
+            # the caller's wavelength buffer was used for another grid before (recalibration in place): only its present content counts
+            buf = (lam * 2 + 7).copy()
+            try:
+                fn(arr, buf, prefix=(case["prefix"] or None), **({} if case["axis"] is None else {"axis": case["axis"]}))
+            except Exception:  # noqa
+                pass
+            buf[:] = lam
+            lam = buf
         a_in, l_in = arr, lam
         base_in = "E" if case["flux"] else "I"
         if case["units"] == "base":
